@@ -134,7 +134,8 @@ func c15CheckPair(r *vcore.Run, u *universe, states []c15Member, i0, i1 int) {
 	for pi, pol := range []ociunify.ReadPolicy{ociunify.ReadSequential, ociunify.ReadConcurrent} {
 		pname := []string{"sequential", "concurrent"}[pi]
 		c := c15PairCase{M0: opsText(states[i0].Ops), M1: opsText(states[i1].Ops), I0: i0, I1: i1, Policy: pname}
-		reg := ociunify.New(m0, m1, &ociunify.Options{ReadPolicy: pol})
+		// members whose readers refuse to be read once closed (as readers over HTTP do)
+		reg := ociunify.New(strictMember{m0}, strictMember{m1}, &ociunify.Options{ReadPolicy: pol})
 		var obs []Obs
 		if r.Guard("pair", "C15/read/"+pname, c, func() {
 			for _, q := range queries {
